@@ -97,6 +97,42 @@ func init() {
 		okp, samep, _ := decrypt(ct, &priv)
 		okb, sameb, _ := decrypt(ct, []byte(append([]byte{}, priv...)))
 		res["dec_forms_same"] = okp && samep && okb && sameb
+		// one value, a history of calls: decryption (successful or refused) is a read-only operation on the EncryptedLeaseSet - the value
+		// serialises, verifies and decrypts afterwards exactly as it did before, and the caller's ciphertext slice is left alone
+		res["history_done"] = false
+		inner := append([]byte{}, ct...)
+		if els, herr := mkELS(inner); herr == nil && els != nil {
+			ser0, _ := els.Bytes()
+			ver0 := els.Verify() == nil
+			step := func(key any) (bool, bool) {
+				out, derr := els.DecryptInnerData(cookie[:], key)
+				if derr != nil || out == nil {
+					return false, false
+				}
+				b, berr := out.Bytes()
+				return true, berr == nil && string(b) == string(plain)
+			}
+			ok1, same1 := step(priv)
+			ser1, _ := els.Bytes()
+			ver1 := els.Verify() == nil
+			ok2, same2 := step(priv)
+			okw, _ := step(wrongPriv)
+			ok3, same3 := step(priv)
+			ser3, _ := els.Bytes()
+			ver3 := els.Verify() == nil
+			res["history_done"] = true
+			res["history_decrypts"] = ok1 && same1 && ok2 && same2 && !okw && ok3 && same3
+			res["history_value_unchanged"] = string(ser1) == string(ser0) && string(ser3) == string(ser0) && ver0 && ver1 && ver3
+			res["history_caller_slice_unchanged"] = string(inner) == string(ct)
+			// ... and after the wire
+			res["history_reparsed_decrypts"] = false
+			if p, _, perr := encrypted_leaseset.ReadEncryptedLeaseSet(append([]byte{}, ser3...)); perr == nil {
+				if out, derr := p.DecryptInnerData(cookie[:], priv); derr == nil && out != nil {
+					b, _ := out.Bytes()
+					res["history_reparsed_decrypts"] = string(b) == string(plain) && p.Verify() == nil
+				}
+			}
+		}
 		ok, _, nv := decrypt(ct, wrongPriv)
 		res["wrongkey_rejected"] = !ok && nv
 		ok, _, nv = decrypt(ct, []byte(wrongPriv))
